@@ -197,6 +197,19 @@ class CContext:
                     alignment = self.alignment(field.typ) * 8
                 else:
                     alignment = 1  # Bitfields are 1 bit aligned
+                    # A bit-field does not cross a boundary of a storage
+                    # unit of its declared type. If it does not fit in
+                    # the rest of the unit it starts in the next one (this
+                    # is the rule of the System V ABI, which gcc follows).
+                    unit_size = self.sizeof(field.typ) * 8
+                    unit_alignment = self.alignment(field.typ) * 8
+                    start = bit_offset % unit_alignment
+                    spanned_units = -(-(start + bitsize) // unit_alignment)
+                    if (
+                        kind == "struct"
+                        and spanned_units > unit_size // unit_alignment
+                    ):
+                        alignment = unit_alignment
             else:
                 bitsize = self.sizeof(field.typ) * 8
                 alignment = self.alignment(field.typ) * 8
